@@ -9,7 +9,7 @@ text plus — for numeric text — the exact rational `Fraction(float(text))` co
 harness), whether the file is the table the property asks for: one line per finished job (by
 `job_id`), every cell equal to `specCell` (numbers within the relative tolerance of the property,
 strings verbatim), all configuration keys, the objective columns of the arity, `job_id`,
-`job_status` present.  `cols` is the parse of the header names into columns (untrusted input:
+`job_status` and the metadata keys of the first successful job present.  `cols` is the parse of the header names into columns (untrusted input:
 the checker re-renders it and compares with the names; by `Col.name_injective` it is unique).
 
 Core Lean only (imports other model files).
@@ -84,8 +84,19 @@ def hasId (cols : List Col) (id : Nat) (row : List CellIn) : Bool :=
 def rowMatches (tol : Rat) (cols : List Col) (n : Option Nat) (j : JobRec) (row : List CellIn) : Bool :=
   row.length == cols.length && (cols.zip row).all (fun p => cellOK tol p.2 (specCell n j p.1))
 
+/-- the metadata keys known when the header is written: those of the first non-failed job (the
+writer starts at the first success; `jobs` are in finishing order) — they must all be columns -/
+def headerMetaOK (cols : List Col) (jobs : List JobRec) : Bool :=
+  match firstSuccess jobs with
+  | some hj => (visibleMeta hj.md).all (fun kv => cols.contains (Col.mdata kv.1))
+  | none => true
+
+/-- `needMeta = false` only for the one situation a `search()` cannot produce: a `flush=True` dump
+whose pending jobs have a failure in front of the first success (the writer then takes the
+failure's keys) -/
 def checkTable (tol : Rat) (cols : List Col) (hdr : List String) (rows : List (List CellIn))
-    (jobs : List JobRec) (n : Option Nat) : Bool :=
+    (jobs : List JobRec) (n : Option Nat) (needMeta : Bool := true) : Bool :=
+  (!needMeta || headerMetaOK cols jobs) &&
   decide (cols.map Col.name = hdr) &&
   cols.contains Col.jobId && cols.contains Col.jobStatus &&
   decide (cols.filter isObjCol = objColsOf n) &&
